@@ -424,7 +424,7 @@ func TestC01(t *testing.T) {
 
 func TestC02(t *testing.T) {
 	r := rt.Start(t, "C02")
-	runWorkloads(t, r, []Workload{wlTrafficBroker, wlTrafficClean, wlSubscribeOverlap}, func(g *GWRun) ([]monitors.V, int) {
+	runWorkloads(t, r, []Workload{wlTrafficBroker, wlTrafficClean, wlSubscribeOverlap, wlTrafficOverlap}, func(g *GWRun) ([]monitors.V, int) {
 		return monitors.C02(g.Items, toPredef(g.Cfg.Predefined))
 	})
 	r.Finish(trafficRule+" Oracle C02: every broker PUBLISH injected while the client is active is delivered exactly once (DUP retransmissions aside) with the same payload/QoS/retain/message ID under a (type, ID) that the client's own knowledge - short decoding, shared predefined map, REGISTERs it accepted, SUBACK/REGACK IDs - resolves to the broker's topic.", nil)
